@@ -414,7 +414,11 @@ func checkProperty(repo, verif, prop, tier string, seed, timeout int, writeEvide
 			// obligations that were never discharged on the unchanged tree (not in the lock file) and
 			// are undecided now are work in progress on the contracts: they are listed separately
 			// (undecided_not_locked) and are not part of what the check claims
-			if o.Status == "undecided" && !lock[cls] && isKnown(o.Name) == nil {
+			// lock-discipline obligations ("this point must be unreachable": rank inversion, re-acquire,
+			// release of a lock that is not held) do not exist on the unchanged tree; one that cannot be
+			// discharged is reported even though no lock entry exists for it
+			lockDiscipline := strings.Contains(o.Name, "#lock:")
+			if o.Status == "undecided" && !lock[cls] && !lockDiscipline && isKnown(o.Name) == nil {
 				cr.undecided = append(cr.undecided, shortObl(o.Name)+" ("+o.Status+")")
 				continue
 			}
@@ -449,7 +453,7 @@ func checkProperty(repo, verif, prop, tier string, seed, timeout int, writeEvide
 					cr.violations = append(cr.violations, fmt.Sprintf("VIOLATION property=%s replay=%s no-failing-input-found", prop, rp))
 				}
 			default:
-				if lock[cls] {
+				if lock[cls] || lockDiscipline {
 					// no model from the solvers: a candidate input from the quantifier-free weakening
 					// may still replay on the real code
 					o.Output = "locked obligation no longer discharges (" + o.Status + ")\n" + o.Output
